@@ -191,6 +191,92 @@ def rule_r5(facts, col, rule_id="C02.R5"):
                     "on unrelated samples on later laps" % show(k)[:80], {})
 
 
+def _bound_atoms(e, out, depth=0):
+    """which ends of the consumed interval an argument mentions AS A BOUND: descend through aggregates, references, casts,
+    merges and calls, but not through arithmetic - an arithmetic node is one atom ('new' when it involves the count
+    parameter, i.e. the new read position; the old read position is the bare `rpos` field read)"""
+    if e is None or depth > 40:
+        return
+    if e.k == "field" and e.owner == c01.STATE_ADT and e.name == "rpos":
+        out.add("old")
+        return
+    if e.k == "bin":
+        has_n = any(x.k == "param" and x.idx >= 2 for x in walk(e))
+        has_r = any(x.k == "field" and x.owner == c01.STATE_ADT and x.name == "rpos" for x in walk(e))
+        if has_n and has_r:
+            out.add("new")
+        return
+    for c in ("a", "b"):
+        x = getattr(e, c, None)
+        if x is not None:
+            _bound_atoms(x, out, depth + 1)
+    for x in (e.args or []):
+        _bound_atoms(x, out, depth + 1)
+    for x in (getattr(e, "alts", None) or []):
+        _bound_atoms(x, out, depth + 1)
+
+
+def rule_r6(facts, col, rule_id="C02.R6"):
+    """which tags a consume removes depends on BOTH ends of the consumed interval on every path: anything that shrinks the
+    tag map using only the new read position (or only the old one) also removes tags of samples that are still unread when
+    the readable region straddles the wrap point"""
+    for body in facts.bodies:
+        if body.kind == "closure" or body_role(facts, body) != "consume":
+            continue
+        ops = {}      # bb -> set of atoms
+        for bb, t in body.calls():
+            f = t["f"]
+            r = f.get("resolved") or {}
+            if f.get("self_adt") != BTREE and r.get("self_adt") != BTREE:
+                continue
+            if f.get("name") not in REMOVING or not t["args"]:
+                continue
+            recv = body.operand_expr(t["args"][0])
+            if not (roots_in_tags(recv) or any(x.k == "call" and (x.q or "").startswith(BTREE) for x in walk(recv))):
+                continue
+            atoms = set()
+            for a in t["args"][1:]:
+                _bound_atoms(body.operand_expr(a), atoms)
+            # closures passed (retain): what they capture
+            for a in t["args"][1:]:
+                for x in walk(body.operand_expr(a)):
+                    if x.k == "agg" and x.ak == "closure":
+                        for y in (x.args or []):
+                            _bound_atoms(y, atoms)
+            ops.setdefault(bb, set()).update(atoms)
+        for bb in sorted(body.reachable(0)):
+            for s_ in body.blocks[bb]["stmts"]:
+                if s_["k"] != "assign":
+                    continue
+                pj = s_["dst"]["p"]
+                if pj and isinstance(pj[-1], dict) and pj[-1].get("o") == c01.STATE_ADT and pj[-1].get("n") == "tags":
+                    atoms = set()
+                    _bound_atoms(body.rvalue_expr(s_["rv"]), atoms)
+                    ops.setdefault(bb, set()).update(atoms)
+        if not ops:
+            continue
+        rets = [b for b in body.reachable(0) if body.term(b)["k"] == "return"]
+        for end, other in (("old", "the old read position rpos"), ("new", "the new read position (rpos + n) % capacity")):
+            key = "%s:removal-depends-on-%s" % (body.q, end)
+            good = {bb for bb, at in ops.items() if end in at}
+            # a path entry -> some shrink op -> return that avoids every op mentioning this end
+            r1 = body.reachable(0, avoid=good)
+            hit = [bb for bb in ops if bb in r1 and bb not in good]
+            bad = None
+            for bb in hit:
+                r2 = body.reachable(bb, avoid=good)
+                if any(x in r2 for x in rets):
+                    bad = bb
+                    break
+            if bad is not None:
+                col.bad(rule_id, key, body.where(bad),
+                        "consume() can shrink the tag map on a path where no removal is bounded by %s: it removes tags outside the "
+                        "consumed interval [rpos, rpos+n) - tags of samples still unread - whenever the readable region straddles the "
+                        "end of the ring" % other, {})
+            else:
+                col.ok(rule_id, key, body.where(sorted(ops)[0]), "every path that removes tags is bounded by %s" % other)
+
+
 UNSTABLE_SORTS = {"sort_unstable", "sort_unstable_by", "sort_unstable_by_key", "select_nth_unstable", "select_nth_unstable_by",
                   "select_nth_unstable_by_key", "reverse", "swap", "rotate_left", "rotate_right", "dedup", "dedup_by_key", "dedup_by"}
 STABLE_SORTS = {"sort", "sort_by", "sort_by_key", "sort_by_cached_key"}
@@ -229,6 +315,8 @@ def run(ctx):
     rule_r3(facts, ctx)
     rule_r4(facts, ctx)
     rule_r5(facts, ctx)
+    rule_r6(facts, ctx)
+    ctx.floor("C02.R6", 2, "both ends of the consumed interval bound the removal")
     ctx.floor("C02.R5", 1, "tag key in the commit body")
     ctx.floor("C02.R4", 1, "tag removal in consume")
     ctx.floor("C02.R3", 1, "tags.sort_by_key in read_buf")
